@@ -92,6 +92,15 @@ pub proof fn lemma_sum_nonneg(s: Seq<u8>)
     if s.len() > 0 { lemma_sum_nonneg(s.drop_last()); }
 }
 
+pub proof fn lemma_sum_take_step(v: Seq<u8>, i: int)
+    requires 0 <= i < v.len()
+    ensures sum(v.take(i + 1)) == sum(v.take(i)) + v[i] as int
+{
+    assert(v.take(i + 1) =~= v.take(i) + seq![v[i]]);
+    lemma_sum_add(v.take(i), seq![v[i]]);
+    lemma_sum_one(v[i]);
+}
+
 pub broadcast group group_seq {
     lemma_add_assoc, lemma_push_is_add, lemma_add_empty, lemma_empty_add, lemma_take_step,
     lemma_take_all, lemma_take_zero, lemma_sum_add, lemma_sum_one, lemma_sum_empty,
